@@ -1,9 +1,10 @@
 #!/bin/bash
 # dev tool: seedeval.sh <PROP> <mN> [check args]  -- confirm a sub-agent's seeded change and run the check against it
 # Confirms in a scratch worktree of /repo: suite passes with the patch, demo fails with it and passes without it.
+# env: WT=<worktree root holding out/mN> (default /tmp/wt-$P), TAG=<prefix for the stored id, e.g. w2>
 P=$1; M=$2; shift 2
-SRC=/tmp/wt-$P/out/$M
-[ -f $SRC/patch.diff ] || SRC=/verif/seeded/$P-$M
+SRC=${WT:-/tmp/wt-$P}/out/$M
+[ -f $SRC/patch.diff ] || SRC=/verif/seeded/$P-${TAG:-}$M
 [ -f $SRC/patch.diff ] || { echo "no patch for $P $M"; exit 2; }
 W=$(mktemp -d /tmp/ev.XXXXXX); rmdir $W
 git -C /repo worktree add -q --detach $W HEAD || exit 2
@@ -26,11 +27,11 @@ VERIF_REPO=$W VERIF_OUTDIR=/tmp/ev.out.$$ /verif/check $P "$@" > /tmp/ev.check.$
 grep -E "VIOLATION|oracle|OK:|HARNESS|note:" /tmp/ev.check.$$ | cut -c1-260 | head -12
 echo "check-exit=$RC"
 if [ "$SUITE" = pass ] && [ "$WITH" = FAIL ] && [ "$WITHOUT" = pass ]; then
-  D=/verif/seeded/$P-$M; mkdir -p $D
+  D=/verif/seeded/$P-${TAG:-}$M; mkdir -p $D
   cp $SRC/patch.diff $SRC/demo_test.go $D/ 2>/dev/null; cp $SRC/notes.md $D/ 2>/dev/null
   CAUGHT=false; [ $RC = 1 ] && CAUGHT=true
   ORACLES=$(grep -o "oracle [A-Z0-9]* ([^)]*)" /tmp/ev.check.$$ | sort -u | paste -sd';')
-  python3 - "$D" "$P" "$M" "$CAUGHT" "$ORACLES" "$DEMO" "$*" <<'PY'
+  python3 - "$D" "$P" "${TAG:-}$M" "$CAUGHT" "$ORACLES" "$DEMO" "$*" <<'PY'
 import json,sys,os
 d,p,m,caught,oracles,demo,args=sys.argv[1:8]
 notes=open(os.path.join(d,'notes.md')).read() if os.path.exists(os.path.join(d,'notes.md')) else ''
